@@ -19,7 +19,7 @@ PROPS = {
         level_note='equal-bound variables may come back FIXED; the writer path "LP held outside the solver" is exercised only as far as '
                    'public histories reach it (hasBasis after a solve with simplifier keeps the LP loaded) and is reported, not claimed',
         technique='runtime monitoring: write/read round-trip oracle on real files over seeded bases and configurations, under ASan+UBSan',
-        stages=lambda t: two_flavour('h_state', 600, 2400, 4000, 16000)(t) + [memcheck_stage('h_state', 48, 320)(t)],
+        stages=lambda t: two_flavour('h_state', 600, 2400, 10000, 40000)(t) + [memcheck_stage('h_state', 48, 320)(t)],
         minima=lambda t: {'memcheck.cases_completed': 44, 'c14.basis_roundtrips.defaultnames.std': 100, 'c14.basis_roundtrips.usernames.cpx': 100, 'c14.source.setBasis': 100,
                           'c14.bases_with_nonbasic_at_upper': 100, 'c14.bases_with_free_nonbasic': 20, 'c14.state_roundtrips.usernames.std': 50,
                           'c14.state_resolves': 100},
